@@ -199,7 +199,10 @@ def assemble_unit(unit, src):
                 continue
             done.add(sp)
             if sp.startswith('gen:'):
-                b.add_text(u.GENERATED_SPECS[sp[4:]], 'spec')
+                def grab0(m):
+                    bcast.extend(x.strip() for x in m.group(1).replace('\n', ' ').split(',') if x.strip())
+                    return ''
+                b.add_text(re.sub(r'^broadcast use ([^;]*);', grab0, u.GENERATED_SPECS[sp[4:]], flags=re.M), 'spec')
             else:
                 body = read(os.path.join(HERE, 'specs', sp))
                 if body.startswith('// module'):
@@ -584,10 +587,11 @@ def report(prop, cfg, args, results, seed, t0, th, unsafe_hits, exp_s, scratch, 
                 line = 'VIOLATION property=%s replay=%s' % (prop, path)
             vio_lines.append(line)
         rc = 1
-    if undec and rc == 0:
+    if undec:
         for u in undec:
             log('UNDECIDED property=%s reason=%s' % (prop, u))
-        rc = 2
+        if rc == 0:
+            rc = 2
     # ---------------- evidence
     if not args.no_evidence:
         trusted = []
